@@ -22,7 +22,7 @@ ASSUMPTIONS = ["Horn's quaternion solution via numpy.linalg.eigh is a correct op
                "numpy.linalg.svd singular values are used only to classify the input"]
 PI = math.pi
 CLASSES = ["generic", "planar", "near_collinear", "noisy", "mirrored", "planar_mirrored",
-           "antipodal", "offset", "tiny_scale", "huge_scale"]
+           "antipodal", "offset", "tiny_scale", "huge_scale", "symmetric"]
 DEGENERATE = ["coincident", "one_axis_x", "one_axis_both", "n1", "unequal", "unequal_dim"]
 
 
@@ -59,6 +59,20 @@ def make_points(rng, cls, n):
         noise_rel = 10.0**rng.uniform(-6, -1)
     if cls == "offset":
         x = x + (rng.normal(size=3) * scale * 10.0**rng.uniform(1, 3))[:, None]
+    if cls == "symmetric":
+        # corners of a cube / box with two equal edges / regular octahedron / tetrahedron (calibration
+        # targets, synthetic tests): singular values of the covariance tie, the rotation is still unique
+        k = int(rng.integers(4))
+        a, b = (1.0, 1.0) if k == 0 else (float(rng.uniform(1.5, 4)), 1.0)
+        if k in (0, 1):
+            pts = np.array([[sx * a, sy * b, sz * b] for sx in (-1, 1) for sy in (-1, 1) for sz in (-1, 1)], dtype=float)
+        elif k == 2:
+            pts = np.array([[1, 0, 0], [-1, 0, 0], [0, 1, 0], [0, -1, 0], [0, 0, 1], [0, 0, -1]], dtype=float)
+        else:
+            pts = np.array([[1, 1, 1], [1, -1, -1], [-1, 1, -1], [-1, -1, 1]], dtype=float)
+        x = (pts * scale).T
+        if rng.random() < .5:
+            x = gen.rand_rot(rng) @ x + (rng.normal(size=3) * scale)[:, None]
     R0 = gen.rand_rot(rng)
     s0 = 10.0**rng.uniform(-2, 2)
     t0 = rng.normal(size=3) * scale * 10.0**rng.uniform(-1, 2)
@@ -77,6 +91,7 @@ def k_align(run, case):
     n = int(case.get("n") or (rng.integers(3, 12) if rng.random() < .4 else rng.integers(3, nmax + 1)))
     with_scale = bool(case["with_scale"]) if "with_scale" in case else bool(rng.random() < .5)
     x, y, (R0, t0, s0), exact, scale = make_points(rng, cls, n)
+    n = x.shape[1]  # (classes with a fixed point count)
     if not with_scale and exact:
         y = (R0 @ x) + t0[:, None]  # generating transform is rigid
         s0 = 1.0
